@@ -76,6 +76,33 @@ def user_havoc(eng, st):
 
 
 def storage_models(eng):
+    # helpers that live in _storage.py (e.g. a context manager around the flatten flag) are executed from their source;
+    # their raw writes to the two thread-local flag objects are mapped onto the ghost flag / label
+    try:
+        eng.extra_modules = [Module("jaxtyping/_storage.py", eng.module.repo)]
+    except Exception:
+        eng.extra_modules = []
+    eng.globals["_treeflatten_storage"] = Opaque("tls:_treeflatten_storage")
+    eng.globals["_treepath_storage"] = Opaque("tls:_treepath_storage")
+
+    def setattr_hook(e, s, recv, attr, v, node):
+        if isinstance(recv, Opaque) and recv.tag == "tls:_treeflatten_storage" and attr == "value":
+            if isinstance(v, Z) and v.kind == "bool" and (z3.is_true(z3.simplify(v.t)) or z3.is_false(z3.simplify(v.t))):
+                s1 = s.clone()
+                s1.ghost["flatten"] = z3.is_true(z3.simplify(v.t))
+                return [(s1, NORMAL)]
+            raise Unsupported("flatten flag set to a non-constant")
+        if isinstance(recv, Opaque) and recv.tag == "tls:_treepath_storage" and attr == "value":
+            s1 = s.clone()
+            s1.ghost["label"] = None if isinstance(v, NoneV) else (v.t if isinstance(v, Z) and v.kind == "str" else z3.FreshConst(STR, "label"))
+            return [(s1, NORMAL)]
+        return None
+
+    eng.method_models["__setattr__"] = setattr_hook
+    _storage_models_core(eng)
+
+
+def _storage_models_core(eng):
     def set_flat(e, s, a, k, n):
         s1 = s.clone()
         s1.ghost["flatten"] = True
@@ -143,7 +170,8 @@ def build(repo=None):
                 if c.startswith("C12:no-label") or c.startswith("C16:"):
                     ob["serves"] = ["C12", "C16"]  # the '?' label protocol is both a restore obligation and the C16 mechanism
                 if c.startswith("C12:flatten"):
-                    ob["serves"] = ["C12", "C08"]
+                    # 'the type-only mode is on exactly while a tree is flattened' is the invariant the array checks rely on (C01/C02/C03)
+                    ob["serves"] = ["C12", "C08", "C01", "C02", "C03"]
             obligations.append(ob)
 
     # ================================================================== __instancecheck__
